@@ -359,7 +359,8 @@ fn legacy_instantiate(mut deps: DepsMut, _env: Env, _info: MessageInfo, msg: Leg
 // ---------------------------------------------------------------- scenario
 const REMOTE_PORT: &str = "transfer";
 const OUR_PORT: &str = "wasm.ics20";
-const CHANS: [&str; 3] = ["channel-0", "channel-1", "channel-2"];
+/// `channel-10`: an id of which another local id (`channel-1`) is a text prefix
+const CHANS: [&str; 4] = ["channel-0", "channel-1", "channel-2", "channel-10"];
 const DENOMS: [&str; 2] = ["uatom", "ustake"];
 /// every actor starts with this much of every native denom and every cw20 token (2^66)
 const FUND: u128 = 1u128 << 66;
@@ -403,6 +404,8 @@ pub struct Ics20Scen {
     /// native denom of the form `xcw20:<token0>`
     xdenom: String,
     header_denoms: Option<Vec<String>>,
+    /// the channel ids of the trace header (observations cover exactly these)
+    header_chans: Vec<String>,
     /// `ics20wide`: further addresses for the allow list (C20)
     extra: Vec<Addr>,
     wide: bool,
@@ -427,6 +430,7 @@ impl Ics20Scen {
             seed: 0,
             xdenom: String::new(),
             header_denoms: None,
+            header_chans: vec![],
             extra: vec![],
             wide: false,
         };
@@ -652,7 +656,7 @@ impl Ics20Scen {
             pallow.join(","),
             channels
         );
-        for ch in CHANS {
+        for ch in &self.header_chans {
             let v = match self.channel(ch) {
                 None => "-".to_string(),
                 Some(es) => es.iter().map(|(d, o, t)| format!("{d}|{o}|{t}")).collect::<Vec<_>>().join(","),
@@ -1035,6 +1039,7 @@ impl Ics20Scen {
 impl Scenario for Ics20Scen {
     fn start(&mut self, seed: u64, trace: u64) -> String {
         self.header_denoms = None;
+        self.header_chans = CHANS.iter().map(|c| c.to_string()).collect();
         self.setup();
         let api = MockApi::default();
         self.extra = if self.wide { (0..36).map(|i| api.addr_make(&format!("xtok{i}"))).collect() } else { vec![] };
@@ -1064,6 +1069,8 @@ impl Scenario for Ics20Scen {
         self.seed = a.u64("seed");
         let ds = a.list("denoms");
         self.header_denoms = if ds.is_empty() { None } else { Some(ds) };
+        let cs = a.list("chans");
+        self.header_chans = if cs.is_empty() { CHANS.iter().map(|c| c.to_string()).collect() } else { cs };
         self.extra = a.list("extra").into_iter().map(Addr::unchecked).collect();
         self.wide = !self.extra.is_empty();
     }
@@ -1155,7 +1162,7 @@ impl Scenario for Ics20Scen {
             return match rng.below(6) {
                 0 => format!("query port env={}", *rng.pick(&["-", "wasm.ics20", "wasm.cosmwasm1contract", "transfer"])),
                 1 => "query list_channels".to_string(),
-                2 => format!("query channel id={}", *rng.pick(&["channel-0", "channel-1", "channel-2", "channel-9"])),
+                2 => format!("query channel id={}", *rng.pick(&["channel-0", "channel-1", "channel-2", "channel-10", "channel-9"])),
                 3 => "query config".to_string(),
                 4 => "query admin".to_string(),
                 _ => {
